@@ -14,3 +14,9 @@ package tcp
 //@   guarded_by lock: maxRecvSize
 //@   immutable: addr proto handshaker closeq
 //@   racy: l bound because written by Listen with no lock and read by Accept/Address/Close; no lock discipline exists for them in the code (outside the guard sweep)
+//@
+//@ func (*dialer).Dial
+//@   before call:SetOption#1 assert arg0 == mangos.OptionMaxRecvSize && arg1 == iface(d.maxRecvSize) && held(d.lock)
+//@
+//@ func (*listener).Listen$1
+//@   before call:SetOption#1 assert arg0 == mangos.OptionMaxRecvSize && arg1 == iface(l.maxRecvSize) && held(l.lock)
